@@ -552,6 +552,14 @@ def _judge_tick(ref, i, exp, est, dg, stale, bad):
                     {k: e[k] for k in ("lport", "fn", "tn", "nope", "rssi", "toa")}, {"send_attempts": att[:2]})
             continue
         n = cand[0]
+        if not e["nope"]:
+            # pair by content first: an optional expectation (window straddling a protocol bound) may be
+            # missing, and several bursts for the same (recipient, fn, tn) may be in flight
+            same = [c for c in cand if (parse_rx(bursts[c][3]) or {}).get("soft") == e["soft"]]
+            if same:
+                n = same[0]
+            elif e.get("optional"):
+                continue
         used[n] = True
         m = parse_rx(bursts[n][3])
         d = bursts[n][3]
